@@ -1,9 +1,11 @@
 import HypnoModel.Drv.C17
+import HypnoModel.Drv.C13
 /- line-protocol driver:  lake env lean --run Driver.lean < ops   (one op per line, one answer per line) -/
 def step (line : String) : String :=
   match Drv.words line with
   | "c17w" :: a => Drv.C17.opWrite a
   | "c17r" :: a => Drv.C17.opRead a
+  | "c13" :: a => Drv.C13.op a
   | _ => "bad-op"
 
 partial def loop (h : IO.FS.Stream) (out : IO.FS.Stream) : IO Unit := do
